@@ -62,7 +62,8 @@ def run_case(arg):
             return fn(sp, **kwargs)
 
         to = case.get("timeout_ms", 10000 if tier == "quick" else 60000)
-        st = symx.explore(path, timeout_ms=to, prefix=case.get("prefix", ()), max_paths=case.get("max_paths", 200000),
+        dump = os.path.join("/tmp", f"verif_xcheck_{pid}") if tier == "thorough" else None
+        st = symx.explore(path, timeout_ms=to, prefix=case.get("prefix", ()), max_paths=case.get("max_paths", 200000), dump_dir=dump,
                           budget_s=case.get("budget_s", 150 if tier == "quick" else 1500))
         st["functions"] = sorted(funcs)
         st["status"] = "ok"
@@ -144,6 +145,41 @@ def replay_real(pid, cex, out_dir, tag):
     return bool(rec.get("reproduced")), rec, path
 
 
+def cross_check(d, limit=60):
+    """re-run sampled SMT-LIB2 queries with /usr/bin/z3 (4.8.12) and cvc5 (1.0, --nl-cov); a definite answer that contradicts ours = disagreement"""
+    import glob
+    import shutil
+    from concurrent.futures import ThreadPoolExecutor
+    files = sorted(glob.glob(os.path.join(d, "*.smt2")))[:limit]
+    res = dict(queries=len(files), agree=0, other_unknown=0, disagree=[])
+
+    def one(f):
+        ours = f.rsplit("_", 1)[1][:-5]
+        out = []
+        for cmd in (["/usr/bin/z3", "-T:20", f], ["cvc5", "--tlimit=20000", "--nl-cov", f]):
+            try:
+                p = subprocess.run(cmd, capture_output=True, text=True, timeout=40)
+                ans = (p.stdout.strip().splitlines() or ["unknown"])[0]
+                if "(error" in p.stdout or ans not in ("sat", "unsat"):
+                    ans = "unknown"
+            except Exception:  # noqa
+                ans = "unknown"
+            out.append(ans)
+        return f, ours, out
+
+    with ThreadPoolExecutor(8) as ex:
+        for f, ours, outs in ex.map(one, files):
+            for o in outs:
+                if o == "unknown":
+                    res["other_unknown"] += 1
+                elif o == ours:
+                    res["agree"] += 1
+                else:
+                    res["disagree"].append(dict(file=os.path.basename(f), ours=ours, other=o))
+    shutil.rmtree(d, ignore_errors=True)
+    return res
+
+
 def load_known():
     p = os.path.join(HERE, "known_findings.json")
     if not os.path.exists(p):
@@ -214,6 +250,10 @@ def main(argv=None):
             truncated.append(r["case"])
         per_case.append(dict(case=r["case"], paths=r["paths"], obligations=r["obligations"], queries=r["queries"],
                              solver_s=r["solver_s"], wall_s=r["case_wall_s"]))
+    # ---- thorough tier: cross-check a sample of the discharged queries with two other solvers (old z3 4.8.12 binary, cvc5 binary)
+    xcheck = None
+    if tier == "thorough":
+        xcheck = cross_check(os.path.join("/tmp", f"verif_xcheck_{pid}"))
     # ---- vacuity: every declared case must reach at least one obligation
     vacuous = [r["case"] for r in results if r["status"] == "ok" and r["obligations"] == 0 and not r.get("allow_empty")]
     # ---- counterexamples -> replay on the real stack
@@ -267,7 +307,7 @@ def main(argv=None):
     status = "held"
     if violations:
         status = "violation"
-    elif bad or unknowns or unreproduced or vacuous or truncated:
+    elif bad or unknowns or unreproduced or vacuous or truncated or (xcheck and xcheck["disagree"]):
         status = "inconclusive"
     ev = dict(
         property_id=pid, tier=tier, seed=seed, level="model_checking",
@@ -288,7 +328,7 @@ def main(argv=None):
             cases=len(cases), per_case=per_case if len(per_case) <= 60 else per_case[:60],
             counterexamples_found=len(cexs), counterexamples_reproduced_on_real_stack=len(violations) + len([1 for _ in known_hits]),
             known_findings_hit=[k["key"] for k in known_hits], exhaustive=bool(not tot["nontrivial"] and not truncated),
-            status=status, partial=bool(a.only),
+            status=status, partial=bool(a.only), cross_check=xcheck,
             not_decided=dict(unknown_obligations=unknowns[:10], unreproduced=unreproduced[:5], harness_errors=[dict(case=b["case"], error=b["error"]) for b in bad][:10],
                              vacuous_cases=vacuous, truncated_cases=truncated),
         ),
